@@ -17,19 +17,25 @@ Section Engine.
   (* checkOnce(t, prop): prop(t); t.failOnError(); deferred t.cleanup(); deferred recover.
      A non-fatal failure that nobody turned into a panic (raised in a cleanup, or followed by a
      skip) is reported as a failure of this test case. *)
+  Definition check_handler (lvl : nat) (r : result unit) : M unit :=
+    match r with
+    | Err XFuel => throw XFuel
+    | _ =>
+        _ <- (match r with Err (XInvalid m) => if internal_msg m then mark_dirty else ret tt | _ => ret tt end) ;;
+        c <- cleanup LF (exec lvl) ;;
+        let r' := match c with Some e => Err e | None => r end in
+        t <- get_ts ;;
+        match r', failed t with
+        | Err XFuel, _ => throw XFuel
+        | Ok _, Some m | Err (XInvalid _), Some m => throw (XStop m SLate)
+        | Ok _, None => ret tt
+        | Err e, _ => throw e
+        end
+    end.
   Definition checkOnce (lvl : nat) (p : prog) : M unit :=
-    try_ (_ <- exec (S lvl) p ;; failOnError STopFailOnError) (fun r =>
-      c <- cleanup LF (exec lvl) ;;
-      let r' := match c with Some e => Err e | None => r end in
-      t <- get_ts ;;
-      match r', failed t with
-      | Err XFuel, _ => throw XFuel
-      | Ok _, Some m | Err (XInvalid _), Some m => throw (XStop m SLate)
-      | Ok _, None => ret tt
-      | Err e, _ => throw e
-      end).
+    try_ (_ <- exec (S lvl) p ;; failOnError STopFailOnError) (check_handler lvl).
 
-  Definition start (x : source) (n : nat) : st := mkSt x fresh_t n.
+  Definition start (x : source) : st := mkSt x fresh_t.
 
   (* ---- checkFuzz ---- *)
   Fixpoint le_word (bs : list N) (sh : N) : N :=
@@ -49,6 +55,6 @@ Section Engine.
     | Err _ => FFail
     end.
   Definition checkFuzz (lvl : nat) (p : prog) (bs : list N) : fuzz_status * out unit :=
-    let o := checkOnce lvl p (start (SBuf (words_of_bytes (S (length bs)) bs)) 0) in
+    let o := checkOnce lvl p (start (SBuf (words_of_bytes (S (length bs)) bs))) in
     (status_of (res o), o).
 End Engine.
